@@ -38,6 +38,7 @@ func caseLines(run *hx.Run, s string, twice bool) {
 	e := hx.Enc(s)
 	p := stringutil.ToPascalCase(s)
 	run.Case("pascal\t"+e, hx.Enc(p), p != s)
+	pascalOracle(run, s, p)
 	if p == s {
 		run.Count("A:pascal:fixpoint")
 	} else {
@@ -52,7 +53,12 @@ func caseLines(run *hx.Run, s string, twice bool) {
 		u := stringutil.ToUpperSnakeCase(s, opts...)
 		run.Case("lsnake\t"+b2s(nwod)+"\t"+e, hx.Enc(l), l != s)
 		run.Case("usnake\t"+b2s(nwod)+"\t"+e, hx.Enc(u), u != s)
+		if nwod {
+			snakeDigitsOracle(run, s, stringutil.ToLowerSnakeCase(s), l)
+		}
 		if !nwod {
+			snakeOracle(run, s, false, l)
+			snakeOracle(run, s, true, u)
 			if l == s {
 				run.Count("A:lsnake:fixpoint")
 			}
@@ -112,8 +118,10 @@ func versionLines(run *hx.Run, s string) {
 		v, ok := protoversion.NewPackageVersionForComponent(s, opts...)
 		out := verString(v, ok)
 		run.Case("verc\t"+b2s(v0)+"\t"+e, out, ok)
+		versionOracle(run, "NewPackageVersionForComponent", s, v0, out)
 		pv, pok := protoversion.NewPackageVersionForPackage(s, opts...)
 		run.Case("ver\t"+b2s(v0)+"\t"+e, verString(pv, pok), pok)
+		versionOracle(run, "NewPackageVersionForPackage", s, v0, verString(pv, pok))
 		if !v0 {
 			if ok {
 				run.Count("A:verc:ok:" + strings.Fields(out)[2])
@@ -145,7 +153,9 @@ func lineLines(run *hx.Run, s string) {
 		}
 		run.Case("stlne\t"+e, strings.Join(encs, ","), len(ne) != len(parts))
 	}
-	run.Case("tl\t"+e, hx.Enc(stringutil.TrimLines(s)), true)
+	tl := stringutil.TrimLines(s)
+	run.Case("tl\t"+e, hx.Enc(tl), true)
+	linesOracle(run, s, parts, ne, tl)
 }
 
 func enumerate(alphabet []string, maxLen int, f func(string)) {
@@ -175,6 +185,93 @@ func randomCaseString(r *hx.Rand) string {
 }
 
 var verTokens = []string{"v", "1", "0", "2", "p", "alpha", "beta", "test", ".", "a", "+", "-", "10"}
+
+// verTokensExt: what strconv.ParseInt would take for a number under another base or with digit
+// separators (0x1, 0b1, 0o7, 1_0, 0X1F), leading zeros; enumerated one level shallower.
+var verTokensExt = []string{"_", "x", "b", "o", "X", "00", "e"}
+
+// verNumbers: what stands where the documented grammar has \d+ — decimal numbers (with leading
+// zeros, around the int32 boundary, far beyond int64) and near-numbers of other notations.
+var verNumbers = []string{"1", "2", "10", "0", "01", "007", "00", "2147483647", "2147483648", "4294967297", "99999999999999999999",
+	"1_0", "1_1", "0x1", "0b1", "0o7", "0X1F", "1e3", "+1", "-1", "-0", "0_1", "1_", "_1", "x1", ""}
+
+func hasAny(s string, toks []string) bool {
+	for _, t := range toks {
+		if strings.Contains(s, t) {
+			return true
+		}
+	}
+	return false
+}
+
+// versionTemplates: every documented form (and `vNpP` without a stability, which is not one)
+// with every combination of verNumbers in the number positions.
+func versionTemplates(f func(string)) {
+	abs := []string{"alpha", "beta", "gamma", "Alpha", "alphabeta"}
+	minors := append([]string{}, verNumbers...)
+	small := []string{"1", "0", "01", "2147483648", "1_0", "0x1", "+1", ""}
+	for _, n := range verNumbers {
+		f("v" + n)
+		f("V" + n)
+		f(n)
+		for _, sfx := range []string{"", "foo", "_1", "alpha", "1"} {
+			f("v" + n + "test" + sfx)
+		}
+		for _, ab := range abs {
+			for _, m := range minors {
+				f("v" + n + ab + m)
+			}
+		}
+		for _, p := range small {
+			f("v" + n + "p" + p)
+			for _, ab := range abs[:2] {
+				for _, m := range small {
+					f("v" + n + "p" + p + ab + m)
+					f("v" + p + "p" + n + ab + m)
+				}
+			}
+		}
+	}
+}
+
+var verEditChars = []string{"_", "x", "b", "o", "X", "+", "-", "0", "1", "9", "e", "p", "v", ".", "a", "A", " "}
+
+// nearMissVersion: a documented version with one character inserted, replaced or deleted.
+func nearMissVersion(r *hx.Rand) string {
+	n := func() string {
+		return hx.Pick(r, []string{"1", "2", "3", "10", "12", "0", "01", "2147483647", "2147483648", strconv.Itoa(r.Intn(5000000000))})
+	}
+	var s string
+	switch r.Intn(4) {
+	case 0:
+		s = "v" + n()
+	case 1:
+		s = "v" + n() + "test" + hx.Pick(r, []string{"", "foo", "1", "_x"})
+	case 2:
+		s = "v" + n() + hx.Pick(r, []string{"alpha", "beta"}) + hx.Pick(r, []string{"", n()})
+	default:
+		s = "v" + n() + "p" + n() + hx.Pick(r, []string{"alpha", "beta"}) + hx.Pick(r, []string{"", n()})
+	}
+	for k := r.Intn(3); k > 0; k-- {
+		i := r.Intn(len(s) + 1)
+		switch r.Intn(3) {
+		case 0:
+			s = s[:i] + hx.Pick(r, verEditChars) + s[i:]
+		case 1:
+			if i < len(s) {
+				s = s[:i] + hx.Pick(r, verEditChars) + s[i+1:]
+			}
+		default:
+			if i < len(s) {
+				s = s[:i] + s[i+1:]
+			}
+		}
+	}
+	if r.Chance(1, 2) {
+		s = hx.Pick(r, []string{"a.", "foo.bar.", "."}) + s
+	}
+	return s
+}
 
 func randomVersion(r *hx.Rand) string {
 	var sb strings.Builder
@@ -206,6 +303,46 @@ func sectionA(run *hx.Run, r *hx.Rand) {
 		run.Count("A:enum-len:" + strconv.Itoa(len(s)))
 	})
 	enumerate(verTokens, run.N(4, 5), func(s string) { versionLines(run, s) })
+	enumerate(append(append([]string{}, verTokens...), verTokensExt...), run.N(3, 4), func(s string) {
+		// thorough (length 4): only strings that can reach the number parser — a component starting
+		// with v, or a package whose last component does
+		if hasAny(s, verTokensExt) && (!run.Thorough() || strings.HasPrefix(s, "v") || strings.Contains(s, ".v")) {
+			versionLines(run, s)
+			run.Count("A:version:extended-alphabet")
+		}
+	})
+	versionTemplates(func(s string) {
+		versionLines(run, s)
+		versionLines(run, "a.b."+s)
+		run.Count("A:version:template")
+	})
+	// the conventions name the same words (documentation-level round trips)
+	wordPool := []string{"Foo", "Bar", "Id", "Http", "User", "Name", "Ab", "Zz", "Value", "Xy"}
+	acronymPool := []string{"ID", "HTTP", "JSON", "AB", "XYZ"}
+	for _, x := range acronymPool {
+		wordsOracle(run, []string{x})
+		for _, a := range wordPool {
+			wordsOracle(run, []string{x, a})
+			wordsOracle(run, []string{a, x})
+			for _, b := range wordPool {
+				wordsOracle(run, []string{a, x, b})
+				wordsOracle(run, []string{x, a, b})
+				wordsOracle(run, []string{a, b, x})
+			}
+			for _, y := range acronymPool {
+				wordsOracle(run, []string{x, a, y})
+			}
+		}
+	}
+	for _, a := range wordPool {
+		wordsOracle(run, []string{a})
+		for _, b := range wordPool {
+			wordsOracle(run, []string{a, b})
+			for _, c := range wordPool[:4] {
+				wordsOracle(run, []string{a, b, c})
+			}
+		}
+	}
 	for _, s := range []string{"a.v1", "a.v1beta1", "a.v1alpha2", "a.v1p1beta1", "a.v1test", "a.v1testfoo", "v1", "a.v0", "a.v+1", "a.v-0", "a.v1p0beta1", "a.v1beta0", "a.v1alphabeta1", "a.v1beta1alpha", "a.vp1beta1", "foo.v2147483647", "foo.v2147483648"} {
 		versionLines(run, s)
 	}
@@ -214,6 +351,7 @@ func sectionA(run *hx.Run, r *hx.Rand) {
 		rr := r.Fork(uint64(i))
 		caseLines(run, randomCaseString(rr), true)
 		versionLines(run, randomVersion(rr))
+		versionLines(run, nearMissVersion(rr))
 		if i%3 == 0 {
 			lineLines(run, randomCaseString(rr)+hx.Pick(rr, []string{"", "\n", " \n ", "\r\n"})+randomCaseString(rr))
 		}
@@ -223,8 +361,10 @@ func sectionA(run *hx.Run, r *hx.Rand) {
 func main() {
 	run := hx.Start("C05")
 	r := hx.NewRand(run.Seed)
-	sectionA(run, r.Fork(1))
+	// Section B first: when a helper of Section A is broken, the lint-level witness (a workspace and
+	// the missing / unexpected annotation) is the first failing input, the string-level ones follow
 	sectionB(run, r.Fork(2))
+	sectionA(run, r.Fork(1))
 	reportTiming()
 	run.Finish()
 }
